@@ -401,6 +401,34 @@ def step (st : St) (toks : List String) : St × String :=
         | none => (st, s!"ok authid={hexOrDash aid} instr={hexOrDash h} chunks=reject")
       | none => (st, "reject")
     | _, _, _ => (st, "bad-op")
+  | "craft.ssu" :: rest =>
+    -- a Shadowsocks datagram sealed under the configured key around an arbitrary plaintext `body`
+    -- (legacy: everything behind the salt; 2022: everything behind session id ‖ packet id); `rnd` = salt / XChaCha nonce
+    match (kv rest "cipher"), (kv rest "password"), (kv rest "sid").bind String.toNat?, (kv rest "pid").bind String.toNat?,
+        (kv rest "rnd").bind unhexOrDash, (kv rest "body").bind unhexOrDash with
+    | some c, some pw, some sid, some pid, some rnd, some body =>
+      match Ss.udpCtxOfConfig C c pw [] with
+      | none => (st, "err")
+      | some ctx =>
+        let k := ctx.kind
+        if !k.is2022 then (st, hexOrDash (rnd ++ ((Ss.newAuth C k ctx.key rnd).sealB C body).1))
+        else
+          let sidPid := be64 sid ++ be64 pid
+          match SsUdp.xAlg k with
+          | none => (st, hexOrDash (C.aesEnc ctx.key sidPid ++
+              C.sealB k.alg (SsUdp.aesSessionKey C k ctx.key sid) (sidPid.drop 4) [] body))
+          | some xa => (st, hexOrDash (rnd ++ C.sealB xa (ctx.key.take 32) rnd [] (sidPid ++ body)))
+    | _, _, _, _, _, _ => (st, "bad-op")
+  | ["nonce.cnt", iv, n] =>
+    -- `CountingNonceGenerator` after `n` earlier calls, over the 12-byte prefix of `iv`
+    match unhexOrDash iv, n.toNat? with
+    | some iv, some n => (st, hexOrDash (Nonce.counting iv n 12))
+    | _, _ => (st, "bad-op")
+  | ["nonce.inc", n] =>
+    -- `IncreasingNonceGenerator`: the nonce handed out by call number `n` (0-based); `Nonce.nth_nonce`: = little-endian `n`
+    match n.toNat? with
+    | some n => (st, hexOrDash (Nat.repeat Nonce.incStep (n + 1) Nonce.incInit))
+    | none => (st, "bad-op")
   | ["craft.sha256", h] =>
     match unhexOrDash h with
     | some b => (st, hexOrDash (C.sha256 b))
@@ -462,8 +490,9 @@ def step (st : St) (toks : List String) : St × String :=
     match st.objs.get? name, unhexOrDash h with
     | some (.ssu o), some b =>
       let now := ((kv rest "now").bind String.toNat?).getD 0
-      (st, match SsUdp.decode C o.ctx .server now b with
-        | .ok (p, a, s) => s!"ok csid={s.clientSessionId} pid={s.packetId} user={(s.user.map (·.name)).getD "-"} {showAddr a} data={hexOrDash p}"
+      (st, match SsUdp.sessionDecode C o.ctx .server now b with
+        | .ok (some (p, a, s)) => s!"ok csid={s.clientSessionId} pid={s.packetId} user={(s.user.map (·.name)).getD "-"} {showAddr a} data={hexOrDash p}"
+        | .ok none => "none"
         | .panic => "panic"
         | _ => "err")
     | _, _ => (st, "bad-op")
